@@ -295,6 +295,9 @@ def build_workflow(rng, context):
             wire(wf.create_step(cls=rng.choice([cwl_step.CWLLoopOutputAllStep, cwl_step.CWLLoopOutputLastStep]), name=name + "-loop-out"), 1, 1)
     for p in rng.sample(ports, min(len(ports), rng.randint(0, 2))):
         wf.output_ports[rs(rng)] = p.name
+    # the CWL translator also fills `Workflow.input_ports` (`workflow.input_ports[port_name] = input_port.name`)
+    for p in rng.sample(ports, min(len(ports), rng.randint(0, 2))):
+        wf.input_ports[rs(rng)] = p.name
     return wf, ports
 
 
@@ -477,13 +480,28 @@ async def _one_case(seed, context):
 
     w1, t1 = await load()
     w2, t2 = await load()
+    # known finding: `Workflow.input_ports` is neither saved nor loaded. Reported once per case, then left out of the comparison
+    # (only in exactly that shape: non-empty before, empty after) so that every other difference stays visible.
+    lost_inputs = bool(original.get("input_ports")) and dump(w1).get("input_ports") == {}
+    strip = {"on": False, "orig": None}
+
+    def D(o):
+        d = dump(o)
+        if strip["on"] and d.get("input_ports") in ({}, strip["orig"]):
+            d = {k: v for k, v in d.items() if k != "input_ports"}
+        return d
+
+    if lost_inputs:
+        res["diffs"].append(("load#1", "workflow-input-ports", f"Workflow.input_ports was {original['input_ports']} when saved and is {{}} after load"))
+        strip["on"], strip["orig"] = True, original["input_ports"]
+        original = D(wf)
     INT_FLAGS.clear()
-    dump(w1)
+    D(w1)
     if INT_FLAGS:
         res["diffs"].append(("load#1", "deployment-flags", f"DeploymentConfig {INT_FLAGS[0]} was saved as a bool and is loaded as an int (0/1)"))
     for label, w, ts in (("load#1", w1, t1), ("load#2", w2, t2)):
-        if dump(w) != original:
-            res["diffs"].append((label, "workflow", first_diff(original, dump(w))))
+        if D(w) != original:
+            res["diffs"].append((label, "workflow", first_diff(original, D(w))))
         for a, b in zip(tok_orig, [dump(t) for t in ts]):
             if a != b:
                 res["diffs"].append((label, "token", first_diff(a, b)))
@@ -492,21 +510,21 @@ async def _one_case(seed, context):
     # two loads are independent: write into everything reachable from load #1
     nmut = mutate(w1) + sum(mutate(t) for t in t1)
     res["mutations"] = nmut
-    if dump(w2) != original:
-        res["diffs"].append(("load#2 after mutating load#1", "workflow", first_diff(original, dump(w2))))
+    if D(w2) != original:
+        res["diffs"].append(("load#2 after mutating load#1", "workflow", first_diff(original, D(w2))))
     for a, b in zip(tok_orig, [dump(t) for t in t2]):
         if a != b:
             res["diffs"].append(("load#2 after mutating load#1", "token", first_diff(a, b)))
     w3, t3 = await load()
-    if dump(w3) != original:
-        res["diffs"].append(("fresh load after mutating load#1 (stored record changed)", "workflow", first_diff(original, dump(w3))))
+    if D(w3) != original:
+        res["diffs"].append(("fresh load after mutating load#1 (stored record changed)", "workflow", first_diff(original, D(w3))))
     for a, b in zip(tok_orig, [dump(t) for t in t3]):
         if a != b:
             res["diffs"].append(("fresh load after mutating load#1 (stored record changed)", "token", first_diff(a, b)))
     # a deep copy through the workflow builder: same structure, no persistent identity
     wb = WorkflowBuilder(db, deep_copy=True)
     w4 = await wb.load_workflow(wf.persistent_id)
-    d4 = dump(w4)
+    d4 = D(w4)
     want = json.loads(json.dumps(original))
     want["name"] = d4.get("name")              # the copy gets a fresh name
     if strip_wf(d4, w4.name) != strip_wf(want, w4.name) and strip_wf(d4, w4.name) != strip_wf(json.loads(json.dumps(original)), wf.name):
@@ -592,6 +610,7 @@ class C08(Property):
 
     def explore(self, ctx: Ctx) -> None:
         self._flag_reported = False
+        self._inputs_reported = False
         n = 40 if ctx.tier == "quick" else 500
         if ctx.mode == "search":
             n *= 2
@@ -638,6 +657,12 @@ class C08(Property):
                     if not self._flag_reported:
                         self._flag_reported = True
                         ctx.fail("persist:deployment-flags:bool-loaded-as-int", f"{label}: {d}", {"seed": r["seed"]})
+                    continue
+                if what == "workflow-input-ports":
+                    ctx.count("workflow-input-ports-lost")
+                    if not self._inputs_reported:
+                        self._inputs_reported = True
+                        ctx.fail("persist:workflow-input-ports:not-saved", f"{label}: {d}", {"seed": r["seed"]})
                     continue
                 key = ("persist:" + what + ":" + ("exception" if what == "raises" else
                                                   "not-reproduced" if label.startswith("load#") and "after" not in label else
